@@ -275,14 +275,16 @@ def check_conversions(ctx, lib, cfg):
             ctx.check(ok and gok, rule, key, f"[{cfg}] {st}: both paths build Variable::{want} of the argument itself", b.span)
         elif st in ("serde_json::Value", "&'a serde_json::Value"):
             calls = [t for _, t in b.calls()]
-            ti = [t for t in calls if t["callee"] == "std::convert::TryInto::try_into"]
+            # the conversion, whichever side it is named from: `self.try_into()` or `Variable::try_from(self)`
+            CONV = {"std::convert::TryInto::try_into": 1, "std::convert::TryFrom::try_from": 0}
+            ti = [t for t in calls if t["callee"] in CONV]
             names = sorted({t["callee"] for t in calls if not t["callee"].startswith("std::ops::")})
-            ok = len(ti) == 1 and o.of_operand(ti[0]["args"][0]) == {("param", 1)} and ti[0]["callee_args"][1] == VAR and \
-                all(n == "std::convert::TryInto::try_into" or re.match(r"^std::(rc::Rc|sync::Arc)::<T>::new$", n) for n in names)
+            ok = len(ti) == 1 and o.of_operand(ti[0]["args"][0]) == {("param", 1)} and ti[0]["callee_args"][CONV[ti[0]["callee"]]] == VAR and \
+                all(n in CONV or re.match(r"^std::(rc::Rc|sync::Arc)::<T>::new$", n) for n in names)
             if ok:
                 def from_ti(t):
                     t = strip_through(t)
-                    return t[0] == "call" and t[1] == "std::convert::TryInto::try_into"
+                    return t[0] == "call" and t[1] in CONV
                 for t in o.of_local(0):
                     if from_ti(t) or (t[0] == "agg" and t[1].startswith("std::result::Result::") and t[2][0] and all(from_ti(x) for x in t[2][0])):
                         continue
